@@ -93,7 +93,7 @@ func runSolverCtx(parent context.Context, sc SolverCfg, file string, timeoutS in
 
 // discharge runs every obligation; tier decides time limits and cross-checking.
 func discharge(obs []*Obligation, scratch string, tier string, seed int) {
-	timeout := 10
+	timeout := 25 // quick tier: 25 s per raced obligation (10 s made obligations that need 2-4 s alone flaky when 32 solver processes share 16 cores)
 	if tier == "thorough" {
 		timeout = 60
 	}
